@@ -143,7 +143,7 @@ let () =
               | None -> ()
               | Some ac ->
                   incr arm_no;
-                  let with_skel = (!arm_no = pick) && Sys.getenv_opt "SCAN_NO_SKEL" = None in
+                  let with_skel = (!arm_no = pick) in
                   let am = arm_of ac in
                   let f = List.map kv stoks in
                   let has k = List.mem_assoc k f in
